@@ -31,6 +31,8 @@ pub struct Opts {
     pub cancel_everywhere: bool,
     /// extra event names that match nothing
     pub extra_events: Vec<String>,
+    /// the alphabet is exactly extra_events (descriptor strings of the document are not event names)
+    pub alphabet_only_extra: bool,
     /// compare traces with the reference (false: invariants only, pacing independent of the reference)
     pub use_reference: bool,
     /// evaluate the legal-configuration invariants (C01)
@@ -47,6 +49,7 @@ impl Default for Opts {
             burst: false,
             cancel_everywhere: false,
             extra_events: vec!["zz".into()],
+            alphabet_only_extra: false,
             use_reference: true,
             check_legality: false,
         }
@@ -69,6 +72,8 @@ pub struct DocReport {
     pub violations: Vec<Violation>,
     pub soft_violations: Vec<Violation>,
     pub sample: Option<String>,
+    pub divergent_edges: usize,
+    pub divergent_start: bool,
     pub marks_checked: usize,
     pub legal_checks: usize,
     pub distinct_cfgs: BTreeSet<Vec<String>>,
@@ -98,8 +103,16 @@ pub fn normalise(recs: &[(u32, Rec)], from: usize, run: &Run, root_name: &str) -
                 }
             }
             Rec::ISend(n) => out.push(Obs::ISend(n.clone())),
-            Rec::IRecv(e) => out.push(Obs::IRecv(e.name.clone())),
-            Rec::XRecv(e) => out.push(Obs::XRecv(e.name.clone())),
+            Rec::IRecv(e) => out.push(Obs::IRecv(fmt_event(
+                &e.name,
+                e.params.as_deref().unwrap_or(&[]),
+                e.content.as_deref(),
+            ))),
+            Rec::XRecv(e) => out.push(Obs::XRecv(fmt_event(
+                &e.name,
+                e.params.as_deref().unwrap_or(&[]),
+                e.content.as_deref(),
+            ))),
             Rec::Mark { args, .. } => out.push(Obs::Mark(args.clone())),
             Rec::MEnter(_) | Rec::MExit(_) => {}
         }
@@ -465,7 +478,20 @@ impl<'a> Explorer<'a> {
         });
     }
 
+    fn divergent_marker(&self) -> IdleState {
+        IdleState {
+            cfg: vec!["<divergent>".into()],
+            hist: vec![],
+            vars: vec![],
+            running: false,
+            final_cfg: None,
+        }
+    }
+
     fn alphabet(&self) -> Vec<String> {
+        if self.opts.alphabet_only_extra {
+            return self.opts.extra_events.clone();
+        }
         let mut a = self.doc.events();
         // descriptors like "e.*" are not event names; strip wildcard suffixes, drop "*"
         a = a
@@ -488,8 +514,16 @@ impl<'a> Explorer<'a> {
     }
 
     fn live_start(&mut self) -> Option<(Live<'a>, IdleState, bool)> {
-        self.rep.runs += 1;
         let doc = self.doc;
+        {
+            let mut probe = Ref::new(doc);
+            probe.start();
+            if probe.diverged {
+                self.rep.divergent_start = true;
+                return None;
+            }
+        }
+        self.rep.runs += 1;
         let run = match Run::start(&self.xml, self.opts.watchdog) {
             Ok(r) => r,
             Err(e) => {
@@ -522,6 +556,15 @@ impl<'a> Explorer<'a> {
     }
 
     fn live_step(&mut self, live: &mut Live<'a>, ev: &str) -> Option<(IdleState, bool)> {
+        // dry-run on a copy of the reference: an event whose macrostep never goes idle is not sent
+        {
+            let mut probe = Ref::from_state(self.doc, live.rf.st.clone());
+            probe.step(Ev::ext(ev));
+            if probe.diverged {
+                self.rep.divergent_edges += 1;
+                return Some((self.divergent_marker(), true));
+            }
+        }
         live.history.push(ev.to_string());
         live.rf.step(Ev::ext(ev));
         live.run.send_name(ev);
@@ -808,6 +851,9 @@ impl<'a> Explorer<'a> {
                     None => break,
                 };
                 match self.live_step(&mut live, &ev) {
+                    Some((nk, _)) if nk.cfg.len() == 1 && nk.cfg[0] == "<divergent>" => {
+                        continue;
+                    }
                     Some((nk, running)) => {
                         self.rep.edges += 1;
                         self.rep.max_depth_seen = self.rep.max_depth_seen.max(live.history.len());
@@ -865,7 +911,7 @@ impl<'a> Explorer<'a> {
                 }
             }
         }
-        if self.opts.burst {
+        if self.opts.burst && !doc_has_self_send(self.doc) {
             for h in &histories {
                 if h.len() < 2 {
                     continue;
@@ -876,6 +922,28 @@ impl<'a> Explorer<'a> {
             }
         }
     }
+}
+
+fn block_has_self_send(b: &Block) -> bool {
+    b.iter().any(|s| match s {
+        Stmt::SendSelf(_) => true,
+        Stmt::If { branches, els } => {
+            branches.iter().any(|(_, b)| block_has_self_send(b)) || els.as_ref().map(|b| block_has_self_send(b)).unwrap_or(false)
+        }
+        Stmt::Foreach { body, .. } => block_has_self_send(body),
+        _ => false,
+    })
+}
+
+/// documents whose sessions send external events to themselves: the order of those relative to host
+/// events already queued is timing dependent, so the burst comparison does not apply
+pub fn doc_has_self_send(d: &Doc) -> bool {
+    d.nodes.iter().any(|n| {
+        n.onentry.iter().any(block_has_self_send)
+            || n.onexit.iter().any(block_has_self_send)
+            || n.trans.iter().any(|t| block_has_self_send(&t.content))
+            || n.initial_elem.as_ref().map(|(_, b)| block_has_self_send(b)).unwrap_or(false)
+    })
 }
 
 pub struct Live<'a> {
